@@ -41,11 +41,18 @@ where
     }
 
     pub fn reassemble(&mut self, mut buf: Bytes) -> Option<T> {
+        if buf.len() < 4 {
+            return None;
+        }
         let mut head = buf.split_to(4);
         let id = head.get_u16();
         let total = head.get_u8();
         let seq = head.get_u8();
         // tracing::trace!("reassemble id: {} total: {} seq: {}", id, total, seq);
+        // the header comes from the peer: the bitmap holds at most 127 fragments
+        if total == 0 || total > 127 || seq >= total {
+            return None;
+        }
         if total == 1 && seq == 0 {
             T::from_buffer(buf)
         } else if let Entry::Occupied(mut entry) = self.queue.entry(id) {
